@@ -192,7 +192,8 @@ func (i *TTMLInItems) UnmarshalXML(d *xml.Decoder, start xml.StartElement) (err 
 			}
 			*i = append(*i, e)
 		} else if b, ok := t.(xml.CharData); ok {
-			if str := string(b); len(strings.TrimSpace(str)) > 0 {
+			// (XML white space only: a run of U+00A0, U+2028 ... is text, not white space between elements)
+			if str := string(b); len(strings.Trim(str, " \t\r\n")) > 0 {
 				*i = append(*i, TTMLInItem{Text: str})
 			}
 		}
